@@ -257,10 +257,85 @@ func (p *c14) capacityExact(rec *core.Recorder, r *core.Rand) {
 	}
 }
 
+// wild: an entry of the independently written corpus, padded in front and behind with literal text and/or comments
+func (p *c14) wild(rec *core.Recorder, r *core.Rand, tier string) {
+	we, ok := wildPick(r)
+	if !ok {
+		rec.Count("wild-corpus-missing", 1)
+		return
+	}
+	srcs := we.Srcs()
+	short := srcs[we.Render]
+	targets := []int{4097, 4200, 8192, 20481, 65537}
+	if tier == "thorough" {
+		targets = append(targets, 100001)
+	}
+	target := targets[r.Intn(len(targets))]
+	n := target - len(short)
+	if n < 16 {
+		n = 16
+	}
+	var front, back, frontVis, backVis string
+	mk := func(k int) (string, string) {
+		if k < 8 {
+			k = 8
+		}
+		// comments only: the entry's main template may be rendered several times (loops, recursive includes), so literal
+		// text pads would legitimately appear more than once
+		return "{# " + c14Filler(r, k-6) + " #}", ""
+	}
+	side := r.Intn(3)
+	if strings.HasSuffix(short, "\\") || strings.HasSuffix(short, "{") {
+		side = 0 // a backslash or a brace directly before the pad's `{#` would change what the pad is
+	}
+	switch side {
+	case 0:
+		front, frontVis = mk(n)
+	case 1:
+		back, backVis = mk(n)
+	default:
+		front, frontVis = mk(n / 2)
+		back, backVis = mk(n - n/2)
+	}
+	long := front + short + back
+	rec.Eval("wild", we.ID+long[:min(len(long), 40)]+fmt.Sprint(len(long)), len(short) <= 4096 && len(long) > 4096)
+	if len(short) <= 4096 && len(long) > 4096 {
+		rec.Count("straddles-4096", 1)
+	}
+	ctx := we.Ctx(nil)
+	rs := renderFresh(srcs, we.Render, ctx, nil)
+	srcsL := we.Srcs()
+	srcsL[we.Render] = long
+	rl := renderFresh(srcsL, we.Render, we.Ctx(nil), nil)
+	cs := map[string]any{"entry": we.ID, "short": core.Trunc(short, 800), "long_len": len(long), "front_len": len(front), "back_len": len(back)}
+	if rl.Panicked {
+		rec.Violate("panic", "panic@"+rl.Site, "engine panicked on the padded corpus entry: "+rl.PanicVal, cs, rl.Stack)
+		return
+	}
+	if rs.Panicked || rs.Err != nil {
+		rec.Count("skipped-short-fails", 1)
+		return
+	}
+	want := frontVis + rs.Out + backVis
+	if rl.Err != nil || rl.Out != want {
+		i := 0
+		for i < len(rl.Out) && i < len(want) && rl.Out[i] == want[i] {
+			i++
+		}
+		rec.Violate("pad-invariance", "c14-wild:"+we.ID,
+			fmt.Sprintf("padding corpus entry %s (%d -> %d bytes) changed how it is read (err=%v): outputs differ at byte %d: got …%q want …%q", we.ID, len(short), len(long), rl.Err, i,
+				core.Trunc(rl.Out[min(i, len(rl.Out)):], 60), core.Trunc(want[min(i, len(want)):], 60)), cs, "")
+	}
+}
+
 func (p *c14) Run(rec *core.Recorder, seed uint64, idx int, tier string) {
 	r := core.NewRand("C14", seed, idx)
 	if idx%6 == 5 {
 		p.capacityExact(rec, r)
+		return
+	}
+	if idx%6 == 2 {
+		p.wild(rec, r, tier)
 		return
 	}
 	// ---- base template
